@@ -381,6 +381,13 @@ class SetAlg:
                 new = gens[:i - 1] + ((prev[0], prev[1], tuple(prev[2]) + tuple(subst(c_, m) for c_ in gc)),) + tuple(
                     (p_, subst(i_, m), tuple(subst(c_, m) for c_ in cs_)) for p_, i_, cs_ in gens[i + 1:])
                 return self._distribute(subst(payload, m), new)
+            if gi_s[0] in ("listlit", "tuplelit", "setlit") and 2 <= len(gi_s[1]) <= 4 and all(x[0] != "star" for x in gi_s[1]) and gp[0] == "var" and i > 0:
+                # for y in (u, v): one part per element
+                parts_ = []
+                for x in gi_s[1]:
+                    one = gens[:i] + ((gp, (gi_s[0], (x,)), gc),) + gens[i + 1:]
+                    parts_.extend(self._distribute(payload, one))
+                return parts_
         if payload[0] in ("setlit", "listlit", "tuplelit") and len(payload[1]) == 1 and gens:
             # {f(a if c else b) for x in S} = {f(a) for x in S if c} ∪ {f(b) for x in S if not c}
             from .symeval import _first_ite
@@ -474,6 +481,13 @@ class SetAlg:
         comp = p[1]
         if comp[0] != "comp":
             # ⋃ S for a collection S of collections (chain.from_iterable(S))
+            src = self.strip(comp)
+            if src[0] in ("Ed", "Eu"):
+                # the edges of a graph are pairs: their union is the set of first endpoints together with the set of second endpoints
+                a, b = ("var", "%ep0_"), ("var", "%ep1_")
+                pat = ("tuplelit", (a, b))
+                return f_or(self._member_part(e, ("bigunion", ("comp", "set", ("setlit", (a,)), ((pat, src, ()),)))),
+                            self._member_part(e, ("bigunion", ("comp", "set", ("setlit", (b,)), ((pat, src, ()),)))))
             return ("atom", ("in", e, ("bigunion", self.canon(("setof", comp)))))
         if len(comp[3]) == 1 and comp[3][0][0][0] == "var" and self.strip(comp[2]) == comp[3][0][0] and not comp[3][0][2]:
             # ⋃_{s ∈ S} s  is  ⋃ S
@@ -802,7 +816,9 @@ class SetAlg:
     def is_setexpr(self, t: Term) -> bool:
         return t[0] in ("union", "inter", "diff", "setof", "empty") or (
             t[0] == "comp" and t[1] == "set"
-        ) or (t[0] == "accum" and t[1] == "union")
+        ) or (t[0] == "accum" and t[1] == "union") or (
+            # a set display {a, b, *S}: the same set as {a, b} | set(S), so it gets the same canonical form
+            t[0] == "setlit" and len(t) == 2 and len(t[1]) >= 2 and all(is_term(x) for x in t[1]))
 
     def canon_set(self, t: Term) -> Term:
         """Canonical representative of a collection read as a set: ('SET', atoms, table)."""
@@ -861,12 +877,20 @@ class SetAlg:
             out = t[1][0][1]
             for x in t[1][1:]:
                 out = ("concat", out, x[1])
+            if h == "tuplelit":
+                return self.canon(("call", "tuple", (out,), ()))  # (*a, *b) is a tuple whatever a and b are
             return self.canon(out)
         if h == "call" and isinstance(t[1], str) and t[1].split(".")[-1] == "chain" and len(t[2]) >= 1 and not t[3] and not t[1].endswith("from_iterable"):
             out = t[2][0]
             for x in t[2][1:]:
                 out = ("concat", out, x)
             return self.canon(out)
+        if h == "call" and t[1] in ("sorted", "list", "tuple", "reversed") and len(t[2]) == 1:
+            a0 = self.strip(t[2][0])
+            if a0 == EMPTY or (a0[0] in ("listlit", "tuplelit", "setlit") and len(a0) == 2 and not a0[1]):
+                return ("tuplelit" if t[1] == "tuple" else "listlit", ())  # nothing to sort / list
+            if t[1] == "tuple" and a0[0] in ("listlit", "tuplelit") and not any(x[0] == "star" for x in a0[1]):
+                return self.canon(("tuplelit", a0[1]))
         if h == "call" and isinstance(t[1], str) and t[1].split(".")[-1] in ITER_CONSUMERS and t[2]:
             # list(X) / tuple(X) handed to something that only iterates it is X
             args = []
